@@ -32,6 +32,10 @@ pub enum DOp {
     RetainEven,
     Clear,
     IterMutAdd,
+    /// collect the items of iter(), drop the iterator, yield, read the items again: the items keep the lock
+    CollectIter,
+    /// collect the items of iter_mut(), add 1 through each, yield, read them again
+    CollectIterMutAdd,
     SetInsert(u8),
     SetRemove(u8),
     SetContains(u8),
@@ -117,6 +121,33 @@ fn run_task(m: &DashMap<u8, i64>, s: &DashSet<u8>, t: usize, ops: &[DOp], log: &
                 }
                 "()".into()
             }
+            DOp::CollectIter => {
+                let items: Vec<_> = m.iter().collect();
+                let read = |items: &Vec<sdash::mapref::multiple::RefMulti<'_, u8, i64>>| items.iter().map(|i| *i.value() + *i.key() as i64 * 1000).sum::<i64>();
+                let a = read(&items);
+                // the operation takes effect here (with no items nothing keeps the lock afterwards)
+                log.lock().unwrap().push((t, i, format!("{}:{a}", items.len())));
+                shuttle::thread::yield_now();
+                let b = read(&items);
+                if a != b {
+                    log.lock().unwrap().push((t, usize::MAX, format!("CHANGED-WHILE-HELD {a}->{b} (items of iter() collected by task {t} op {i})")));
+                }
+                continue;
+            }
+            DOp::CollectIterMutAdd => {
+                let mut items: Vec<_> = m.iter_mut().collect();
+                for it in items.iter_mut() {
+                    *it.value_mut() += 1;
+                }
+                let a: i64 = items.iter().map(|i| *i.value()).sum();
+                log.lock().unwrap().push((t, i, "()".into()));
+                shuttle::thread::yield_now();
+                let b: i64 = items.iter().map(|i| *i.value()).sum();
+                if a != b {
+                    log.lock().unwrap().push((t, usize::MAX, format!("CHANGED-WHILE-HELD {a}->{b} (items of iter_mut() collected by task {t} op {i})")));
+                }
+                continue;
+            }
             DOp::SetInsert(k) => format!("{}", s.insert(*k)),
             DOp::SetRemove(k) => format!("{:?}", s.remove(k)),
             DOp::SetContains(k) => format!("{}", s.contains(k)),
@@ -131,6 +162,9 @@ fn linearise(prog: &[Vec<DOp>], log: &[(usize, usize, String)]) -> Option<String
     let mut m: BTreeMap<u8, i64> = BTreeMap::new();
     let mut s: BTreeSet<u8> = BTreeSet::new();
     for (t, i, got) in log {
+        if *i == usize::MAX {
+            return Some(got.clone());
+        }
         let op = &prog[*t][*i];
         let want: String = match op {
             DOp::Insert(k, v) => format!("{:?}", m.insert(*k, *v)),
@@ -146,7 +180,7 @@ fn linearise(prog: &[Vec<DOp>], log: &[(usize, usize, String)]) -> Option<String
             }
             DOp::EntryOrInsert(k, v) => format!("{}", *m.entry(*k).or_insert(*v)),
             DOp::EntryModifyOrInsert(k, v) => format!("{}", *m.entry(*k).and_modify(|x| *x += 100).or_insert(*v)),
-            DOp::IterSum => format!("{}:{}", m.len(), m.iter().map(|(k, v)| *v + *k as i64 * 1000).sum::<i64>()),
+            DOp::IterSum | DOp::CollectIter => format!("{}:{}", m.len(), m.iter().map(|(k, v)| *v + *k as i64 * 1000).sum::<i64>()),
             DOp::HoldMut(k) => match m.get_mut(k) {
                 Some(v) => {
                     *v += 2;
@@ -179,7 +213,7 @@ fn linearise(prog: &[Vec<DOp>], log: &[(usize, usize, String)]) -> Option<String
                 m.clear();
                 "()".into()
             }
-            DOp::IterMutAdd => {
+            DOp::IterMutAdd | DOp::CollectIterMutAdd => {
                 for v in m.values_mut() {
                     *v += 1;
                 }
@@ -214,7 +248,15 @@ pub fn gen_prog(rng: &mut Rng, size: usize) -> Vec<Vec<DOp>> {
                         8 => DOp::Alter(key),
                         9 => DOp::EntryOrInsert(key, 7),
                         10 => DOp::EntryModifyOrInsert(key, 3),
-                        11 => DOp::IterSum,
+                        11 => {
+                            if rng.chance(1, 2) {
+                                DOp::IterSum
+                            } else if rng.chance(2, 3) {
+                                DOp::CollectIter
+                            } else {
+                                DOp::CollectIterMutAdd
+                            }
+                        }
                         12 | 13 => DOp::HoldRef(key),
                         14 => DOp::HoldMut(key),
                         15 => DOp::TryGet(key),
